@@ -22,9 +22,9 @@ LEVEL = "fault_enumeration"
 JAIL = True
 PY = sys.executable
 
-HISTORIES = [("messages", ""), ("namespace", ""), ("inboxpack", ""), ("startup", ""), ("startup", "preexisting"), ("messages", "preexisting"),
+HISTORIES = [("expunge", ""), ("messages", ""), ("namespace", ""), ("inboxpack", ""), ("startup", ""), ("startup", "preexisting"), ("messages", "preexisting"),
              ("startup", "schema0"), ("startup", "schema1"), ("startup", "schema2"), ("startup", "schema3"), ("startup", "schema4"), ("startup", "schema5")]
-QUICK = [("messages", ""), ("namespace", ""), ("startup", ""), ("startup", "schema1"), ("startup", "schema4"), ("inboxpack", "")]
+QUICK = [("expunge", ""), ("messages", ""), ("namespace", ""), ("startup", ""), ("startup", "schema1"), ("startup", "schema4"), ("inboxpack", "")]
 
 
 def run_child(scratch, hist, variant, k, tag, points=False):
@@ -231,7 +231,7 @@ def run_shard(spec):
             cases.append(Case.make(f"{hist}/{variant}:k{k}", INCONCLUSIVE, spec=dict(spec, only_k=k), reason=f"child was not killed at point {k} (rc={rc}): nondeterministic mutation count? {err[-200:]}"))
             shutil.rmtree(os.path.join(scratch, tag), ignore_errors=True)
             continue
-        deliver = (k % 3 == 0) and hist != "startup"
+        deliver = ((k % 3 == 0) or hist == "expunge") and hist != "startup"
         res, rerr = run_recover(scratch, d, ledger, tag, deliver, keep)
         inside = first_cmd.get(cmdlabel, 0) < k <= last_cmd.get(cmdlabel, 0)
         spec_k = dict(spec, only_k=k)
@@ -262,7 +262,7 @@ def plan(tier, seed, scale):
             parts = 4
         for part in range(parts):
             sp = {"prop": PROP, "tier": tier, "seed": seed, "hist": hist, "variant": variant, "part": part, "parts": parts, "scripts": [0]}
-            if tier == "quick" and hist != "startup":
+            if tier == "quick" and hist not in ("startup", "expunge"):
                 sp["limit"] = int(30 * scale)
             specs.append(sp)
     # syscall-level lanes (strace fault injection)
